@@ -120,6 +120,10 @@ func (tr *tokenReader) Next() bool {
 		if errors.Is(lastErr, io.ErrUnexpectedEOF) {
 			return false
 		}
+		if !ok {
+			// the underlying reader failed: no byte was read that could be unread
+			return false
+		}
 		// other errors should have been corrected
 	}
 	if ok {
